@@ -4,6 +4,12 @@ import OH.Props.TablesC06
 #print axioms OH.Props.C06.C06_printed_number_reparses
 #print axioms OH.Props.C06.C06_day_offset_roundtrip
 #print axioms OH.Props.C06.C06_time_of_day_roundtrip
+#print axioms OH.Props.C06.C06_printableOut_is_the_hypothesis
+#print axioms OH.Props.C06.C06_parse_print_roundtrip
+#print axioms OH.Props.C06.C06_toString_parse_roundtrip
+#print axioms OH.Props.C06.C06_roundtrip_identity
+#print axioms OH.Props.C06.C06_roundtrip_idempotent
+#print axioms OH.Props.C06.C06_print_never_panics
 #print axioms OH.Props.TablesC06.C06_wday_names
 #print axioms OH.Props.TablesC06.C06_wday_names_complete
 #print axioms OH.Props.TablesC06.C06_month_names
